@@ -6,10 +6,10 @@
    through [zidx]/[zset]/[fb_get]/[fb_set], so an out-of-range index is the explicit error
    value [None], never a default.  Loops are [iter_n]/[collect] on the C trip count.
 
-   [fixed] selects between the code as it is in /repo today (fixed = false: the clip
-   `if(x2>=s->width) x2=s->width-1`, DESIGN.md section 7 F15) and the proposed minimal repair
-   (fixed = true: `if(x2>s->width) x2=s->width`, notes/fix_C15_1.diff).  The correspondence run
-   decides which of the two the library implements.
+   [fixed] selects between the clip of the tree (fixed = true: `if(x2>s->width) x2=s->width`,
+   /repo commit 1a3b6d2) and the clip before that commit (fixed = false:
+   `if(x2>=s->width) x2=s->width-1`, DESIGN.md section 7 F15, kept as the record of the defect).
+   The correspondence run executes fixed = true.
    Only definitions here: the model must keep running when a proof breaks. *)
 From Coq Require Export List ZArith Bool Lia.
 Export ListNotations.
